@@ -296,15 +296,16 @@ def parse_fbs(text):
         elif t == 'root_type':
             root = take(); take(';')
         elif t == 'enum':
-            name = take(); take(':'); base = take(); attrs(); take('{')
+            name = take(); take(':'); base = take(); ea = attrs(); take('{')
             syms, nxt = [], 0
             while peek() != '}':
                 s = take()
                 if peek() == '=': take('='); nxt = int(take())
-                syms.append((s, nxt)); nxt += 1
+                # (bit_flags): the declared number is the bit position
+                syms.append((s, (1 << nxt) if 'bit_flags' in ea else nxt)); nxt += 1
                 if peek() == ',': take(',')
             take('}')
-            decls.append({'kind': 'enum', 'ns': list(ns), 'name': name, 'base': base, 'syms': syms})
+            decls.append({'kind': 'enum', 'ns': list(ns), 'name': name, 'base': base, 'syms': syms, 'bit_flags': 'bit_flags' in ea})
         elif t == 'union':
             name = take(); attrs(); take('{')
             syms, nxt = [('NONE', 0)], 1
